@@ -91,6 +91,13 @@ def check(case):
         cut = case.get("late_at", 1) % (len(program) + 1)
         program.insert(cut, {"op": "hook", "name": "add_late"})
     opts = {"hooks": {"add_late": add_late}}
+    if case.get("extractors"):
+        # the application registered exception extractors (meant for failed actions) for the classes destinations
+        # raise, returning fields named like the report's own
+        opts["extractors"] = dict(
+            (DEST_EXC[i % len(DEST_EXC)], {"fields": {"reason": "extractor-reason", "message": "extractor-message", "exception": "extractor.Name", "code": i}})
+            for i in case["extractors"]
+        )
     buffered = case.get("buffer_first")
     if buffered is not None and late is None:
         # part of the program runs before the first add_destinations: those messages come out of the start-up buffer
@@ -222,6 +229,8 @@ def classify(case, info):
     same = len(set(d["exc"] % len(DEST_EXC) for d in case["dests"])) < len(case["dests"])
     if same:
         labels.append("same-exception-class-twice")
+    if case.get("extractors") and info["reports"]:
+        labels.append("extractor-registered-for-a-destination's-exception")
     nontrivial = info["dests"] >= 2 and info["partial"] >= 1 and info["fail_on_report"] >= 1
     return nontrivial, labels
 
@@ -234,7 +243,8 @@ def strategy():
         st.sampled_from([None, None, None, None, 1, 2, 3]),
     )
     return st.builds(
-        lambda dests, late, bf, late_at, pos, p: {"program": p, "dests": dests, "late": late, "buffer_first": bf, "late_at": late_at, "observer_pos": pos},
+        lambda ex, dests, late, bf, late_at, pos, p: {"program": p, "extractors": ex, "dests": dests, "late": late, "buffer_first": bf, "late_at": late_at, "observer_pos": pos},
+        st.one_of(st.just([]), st.just([]), st.lists(st.integers(0, len(DEST_EXC) - 1), min_size=1, max_size=3, unique=True)),
         st.integers(1, 4).flatmap(lambda n: st.lists(dest, min_size=n, max_size=n)),
         st.one_of(st.none(), st.none(), st.integers(0, 3)),
         st.one_of(st.none(), st.integers(0, 4)),
